@@ -25,7 +25,7 @@ PROPS = {
             "{file.*} placeholders are only followed for files the case itself creates or regular files outside /dev /proc /sys /run",
         ],
         "parts": [
-            {"engine": "cfg", "test": "TestProp_C19_Grammar", "quick": 24000, "thorough": 1600000},
+            {"engine": "cfg", "test": "TestProp_C19_Grammar", "quick": 32000, "thorough": 1600000, "shards": {"quick": 4}},
             {"engine": "cfg", "test": "TestProp_C19_Mutate", "quick": 16000, "thorough": 1000000},
             {"engine": "cfg", "test": "Fuzz_C19_Bytes", "quick": 1, "thorough": 1, "native": True, "shards": {"quick": 1, "thorough": 1}},
         ],
